@@ -110,6 +110,8 @@ class Sched:
                 continue
             if self.pending[n] == 'acquire' and self.holder(self.pending_lock.get(n)) is not None:
                 continue
+            if self.pending[n] == 'begin' and self.lock_owner is not None:
+                continue            # a call that has not begun: its first step is to take the entry lock
             out.append(n)
         return out
 
@@ -285,10 +287,10 @@ def read_file(p):
 class Exec:
     """runs `kinds` callers on a fresh cache under a chooser; records everything the comparison and the oracle need"""
 
-    def __init__(self, root, kinds, pre, stale, corrupt=False):
+    def __init__(self, root, kinds, pre, stale, corrupt=False, share=False):
         import taskchain.cache as tc
         self.tc = tc
-        self.kinds, self.pre, self.stale, self.corrupt = kinds, pre, stale, corrupt
+        self.kinds, self.pre, self.stale, self.corrupt, self.share = kinds, pre, stale, corrupt, share
         self.root = root
         # fresh state: the directory is reused, the files are removed
         self.cache = tc.JsonCache(root)
@@ -326,9 +328,12 @@ class Exec:
             return v
 
         def fn():
+            # nothing of a call runs before the caller is first scheduled (a call that starts late starts late with ALL its code)
+            S.point('begin')
             # every caller but the first opens the cache directory itself (as a second process, or the per-call sub-cache of `cached`,
             # does): opening a cache is part of its call and happens whenever the caller is first scheduled
-            cache = self.cache if i == 0 else self.tc.JsonCache(self.root)
+            # (`share`: every caller works on ONE cache object — several look-ups through the object a long-lived component holds)
+            cache = self.cache if (i == 0 or self.share is True or (self.share == 'gets' and kind == 'get')) else self.tc.JsonCache(self.root)
             if kind == 'get':
                 r = cache.get(KEY)
             else:
@@ -362,8 +367,13 @@ class Exec:
                 t = chooser(len(steps), en)
                 if t not in started:
                     started[t] = {'late': returned_val, 'stored': isinstance(read_file(self.final), dict)}
-                steps.append((t, S.pending[t], en))
-                S.step(t)
+                if S.pending[t] == 'begin':
+                    S.step(t)           # the call begins: runs up to its first real scheduling point (not a step of the protocol)
+                    if t in S.done:
+                        steps.append((t, 'returned-without-a-step', en))
+                if t not in S.done:
+                    steps.append((t, S.pending[t], en))
+                    S.step(t)
                 if t in S.done:
                     ret_step[t] = len(steps) - 1
                     if isinstance(S.result.get(t), dict) and 'val' in S.result[t]:
@@ -406,7 +416,7 @@ def explore(make_exec, depth_limit=None, max_runs=None):
 # ------------------------------------------------------------------------------------------- comparison + oracle
 
 def compare(ctx, cfg, sched, tr, mo):
-    case = {'kinds': cfg['kinds'], 'pre': cfg['pre'], 'stale': cfg['stale'], 'corrupt': cfg.get('corrupt', False), 'sched': sched}
+    case = {'kinds': cfg['kinds'], 'pre': cfg['pre'], 'stale': cfg['stale'], 'share': cfg.get('share', False), 'corrupt': cfg.get('corrupt', False), 'sched': sched}
     impl = {'labels': [s[1] for s in tr['steps']], 'enabled': [s[2] for s in tr['steps']], 'res': tr['res'], 'ncomp': tr['ncomp'],
             'file': tr['file'], 'tmp': tr['tmp'], 'lock': tr['lock'], 'status': tr['status']}
     if 'err' in mo:
@@ -423,7 +433,7 @@ def compare(ctx, cfg, sched, tr, mo):
 
 def oracle(ctx, cfg, sched, tr):
     """the property on the real code, from what the harness itself observed (no model involved)"""
-    case = {'kinds': cfg['kinds'], 'pre': cfg['pre'], 'stale': cfg['stale'], 'corrupt': cfg.get('corrupt', False), 'sched': sched}
+    case = {'kinds': cfg['kinds'], 'pre': cfg['pre'], 'stale': cfg['stale'], 'share': cfg.get('share', False), 'corrupt': cfg.get('corrupt', False), 'sched': sched}
     if tr['status'] != 'ok':
         ctx.fail(f'callers never finish ({tr["status"]})', case, {'res': tr['res']})
         return
@@ -466,7 +476,10 @@ def check_batch(ctx, batch):
     for (cfg, sched, tr), mo in zip(batch, mos):
         labels = [s[1] for s in tr['steps']]
         nontrivial = 'compute' in labels or 'openr' in labels
-        ctx.case({'kinds': cfg['kinds'], 'pre': cfg['pre'], 'stale': cfg['stale'], 'sched': sched}, nontrivial=nontrivial)
+        ctx.case({'kinds': cfg['kinds'], 'pre': cfg['pre'], 'stale': cfg['stale'], 'share': cfg.get('share', False), 'corrupt': cfg.get('corrupt', False),
+                  'sched': sched}, nontrivial=nontrivial)
+        if cfg.get('share'):
+            ctx.count('one-cache-object')
         ctx.count(f'callers={min(len(cfg["kinds"]), 4)}{"+" if len(cfg["kinds"]) >= 4 else ""}')
         ctx.count('pre' if cfg['pre'] else ('corrupt-entry' if cfg.get('corrupt') else 'empty'))
         ncomp = sum(tr['ncomp'])
@@ -500,6 +513,10 @@ def configs2():
                 out.append({'kinds': [ks[a], ks[b]], 'pre': pre, 'stale': False})
     out.append({'kinds': ['goc', 'goc'], 'pre': False, 'stale': True})
     out.append({'kinds': ['get', 'gocF'], 'pre': True, 'stale': True})
+    # callers that work on one cache object (a look-up, a computation, in either order)
+    for ks_ in (['get', 'goc'], ['get', 'get'], ['goc', 'goc'], ['get', 'gocF']):
+        for pre in (False, True):
+            out.append({'kinds': ks_, 'pre': pre, 'stale': False, 'share': True})
     # an unreadable entry lying at the final path
     out.append({'kinds': ['goc', 'goc'], 'pre': False, 'stale': False, 'corrupt': True})
     out.append({'kinds': ['get', 'goc'], 'pre': False, 'stale': False, 'corrupt': True})
@@ -527,7 +544,7 @@ def run(ctx, search=False):
 
         def explore_all(cfg, cap):
             k = 0
-            for sched, tr in explore(lambda: Exec(root, cfg['kinds'], cfg['pre'], cfg['stale'], cfg.get('corrupt', False)), max_runs=cap):
+            for sched, tr in explore(lambda: Exec(root, cfg['kinds'], cfg['pre'], cfg['stale'], cfg.get('corrupt', False), cfg.get('share', False)), max_runs=cap):
                 batch.append((cfg, sched, tr))
                 flush()
                 k += 1
@@ -552,6 +569,9 @@ def run(ctx, search=False):
                 cfg = {'kinds': list(kinds), 'pre': pre, 'stale': False}
                 if not enough():
                     explore_all(cfg, 5000)
+        # a look-up, a computation through another object, a second look-up through the FIRST object
+        if not enough():
+            explore_all({'kinds': ['get', 'goc', 'get'], 'pre': False, 'stale': False, 'share': 'gets'}, 5000)
         # three callers over an unreadable entry: two that find it, one more
         for kinds in ((['goc', 'goc', 'get'], ['goc', 'get', 'get']) if ctx.thorough else ()):
             if not enough():
@@ -570,6 +590,7 @@ def run(ctx, search=False):
                 kinds[rng.randrange(nc)] = 'goc'
             cfg = {'kinds': kinds, 'pre': rng.random() < 0.35, 'stale': rng.random() < 0.1}
             cfg['corrupt'] = not cfg['pre'] and rng.random() < 0.15
+            cfg['share'] = rng.random() < 0.25
             style = rng.random()
             state = {'last': None}
 
@@ -581,7 +602,7 @@ def run(ctx, search=False):
                     return state['last']
                 state['last'] = rng.choice(en)
                 return state['last']
-            tr = Exec(root, cfg['kinds'], cfg['pre'], cfg['stale'], cfg.get('corrupt', False)).run(chooser)
+            tr = Exec(root, cfg['kinds'], cfg['pre'], cfg['stale'], cfg.get('corrupt', False), cfg.get('share', False)).run(chooser)
             batch.append((cfg, [s[0] for s in tr['steps']], tr))
             flush()
         flush(True)
